@@ -646,6 +646,29 @@ def run(tier, seed, replay=None):
         R.violation({'sql': srows[i][0], 'catalog': srows[i][1], 'case': srows[i][2]['case'][:2500],
                      'what': 'a filter pushed into a table fetch is not a top-level conjunct of WHERE / of an inner-left ON clause: the '
                              'hypothesis of the pushdown law (Props/C08.v) fails', 'judge': 'Model/ModelJoinCorr.judge_case'})
+    # hypothesis of C08_order_limit_through_left_join ("the fetch sorts by the SAME comparison"): a fetch of a joined table that
+    # carries a pushed LIMIT sorts by the ORDER BY of the statement as it was written (direction, NULLS FIRST / LAST)
+    from mindsdb_sql import parse_sql as _ps
+    from mindsdb_sql.planner import plan_query as _pq
+    nord = 0
+    ord_bad = []
+    for sql, cname in inputs:
+        if ' order by ' not in sql or ' limit ' not in sql or ' join ' not in sql:
+            continue
+        try:
+            q0_ = _ps(sql, 'mindsdb')
+            st_ = _pq(_ps(sql, 'mindsdb'), **copy.deepcopy(catd[cname])).steps
+            before_ = [str(x) for x in st_]
+            changed_ = alt_fetch_order_as_written(st_, q0_)
+        except Exception:
+            continue
+        nord += 1
+        if changed_ is not None and len(ord_bad) < 2:
+            ord_bad.append(sql)
+            R.violation({'sql': sql, 'catalog': cname, 'steps': before_, 'fetch_should_sort_as': [o.to_string() for o in q0_.order_by],
+                         'what': 'a fetch that carries the pushed LIMIT does not sort as the statement says: the hypothesis of '
+                                 'C08_order_limit_through_left_join (same comparison) fails'})
+    R.obligation(f'law hypothesis: a fetch with a pushed LIMIT sorts as the statement says ({nord} join plans with ORDER BY and LIMIT)', not ord_bad)
     R.obligation('judge: every plan result is an acceptable answer (except listed findings)', not R.violations)
     for e in broken[:1]:
         if not R.violations:
